@@ -60,6 +60,8 @@ def kinds():
     return [
         0, 1, -1, 2, 1.0, 0.0, -0.0, 2.5, 2**53 - 1, -(2**53) + 1, 1e300,
         2**53, 2**53 + 1, float(2**53), 10**30, 1e30,
+        # integers beyond the range of a double (json.loads returns them as exact ints)
+        10**400, -(10**400), 2**1024,
         "", "a", "b", "ab", "1", "\U0001F600", "￿", "A",
         True, False, None,
         [], [1], [True], [1.0], [0], [False], [None], [[1]], [[True]], [1, 2], [2, 1], ["a"],
